@@ -50,6 +50,10 @@ type wRS struct {
 	names    map[channel.ID]string
 	calls    []wRegCall
 	failNext bool
+	// holdNext: the next Register call stays in progress until release is closed; its result is failHeld
+	holdNext bool
+	release  chan struct{}
+	failHeld bool
 }
 
 func (r *wRS) Register(_ context.Context, req channel.AdjudicatorReq, subs []channel.SignedState) error {
@@ -64,6 +68,18 @@ func (r *wRS) Register(_ context.Context, req channel.AdjudicatorReq, subs []cha
 		}
 	}
 	r.calls = append(r.calls, c)
+	if r.holdNext {
+		r.holdNext = false
+		rel := make(chan struct{})
+		r.release = rel
+		r.mu.Unlock()
+		<-rel // the call is in progress (the watcher holds the family lock)
+		r.mu.Lock()
+		if r.failHeld {
+			return errors.New("scripted Register failure")
+		}
+		return nil
+	}
 	if r.failNext {
 		return errors.New("scripted Register failure")
 	}
@@ -149,6 +165,13 @@ func runWatcherBehaviour(t *testing.T, steps []wStep) (what string, at int, clas
 		locked := tla.Seq{}
 		ncalls := 0
 		defer func() {
+			rs.mu.Lock()
+			if rs.release != nil {
+				close(rs.release)
+				rs.release = nil
+			}
+			rs.mu.Unlock()
+			synctest.Wait()
 			// tear down so that every goroutine of the watcher can end
 			for _, n := range []string{"S1", "S2", "P"} {
 				func() {
@@ -195,6 +218,23 @@ func runWatcherBehaviour(t *testing.T, steps []wStep) (what string, at int, clas
 					sub := rs.subs[wParams[c].ID()]
 					rs.mu.Unlock()
 					sub.ev <- channel.NewRegisteredEvent(wParams[c].ID(), &channel.ElapsedTimeout{}, uint64(v), wState(c, v, nil), nil)
+				case "RegBegin", "EventWaits":
+					c, v := a.Args[0].(string), a.Args[1].(int)
+					rs.mu.Lock()
+					rs.failNext = false
+					rs.holdNext = a.Name == "RegBegin"
+					sub := rs.subs[wParams[c].ID()]
+					rs.mu.Unlock()
+					sub.ev <- channel.NewRegisteredEvent(wParams[c].ID(), &channel.ElapsedTimeout{}, uint64(v), wState(c, v, nil), nil)
+				case "RegEnd":
+					rs.mu.Lock()
+					rs.failHeld = !a.Args[0].(bool)
+					rel := rs.release
+					rs.release = nil
+					rs.mu.Unlock()
+					if rel != nil {
+						close(rel)
+					}
 				case "ChainOther":
 					c, kind, v := a.Args[0].(string), a.Args[1].(string), a.Args[2].(int)
 					rs.mu.Lock()
@@ -391,6 +431,53 @@ func TestWatcher(t *testing.T) {
 					steps = append(steps, wStep{pe.Act, pe.Dst.State})
 				}
 				report(steps)
+			}
+		}
+		// Hold graphs: what happens while a Register call is in progress is order dependent although the model's state is
+		// not (an event that arrives before / after a publication leaves the same state): every PATH through such a
+		// window - from its RegBegin to the RegEnd that closes it - is executed, after the shortest path to its start.
+		isFree := func(nd *tla.Node) bool {
+			h, ok := nd.State["held"].(tla.Rec)
+			return !ok || h["c"] == "none"
+		}
+		wstride := EnvInt("VERIF_WINDOW_STRIDE", 1) // quick tier: every wstride-th window, offset by the seed
+		woff := int(Seed()) % wstride
+		var windows func(nd *tla.Node, acc []*tla.Edge, out *[][]*tla.Edge)
+		windows = func(nd *tla.Node, acc []*tla.Edge, out *[][]*tla.Edge) {
+			for _, e := range nd.Out {
+				if e.Dst == nd {
+					continue
+				}
+				p := append(append([]*tla.Edge{}, acc...), e)
+				if isFree(e.Dst) {
+					*out = append(*out, p)
+				} else {
+					windows(e.Dst, p, out)
+				}
+			}
+		}
+		for _, nd := range g.Nodes {
+			if !isFree(nd) {
+				continue
+			}
+			for _, e := range nd.Out {
+				if e.Act.Name != "RegBegin" {
+					continue
+				}
+				var ws [][]*tla.Edge
+				windows(e.Dst, []*tla.Edge{e}, &ws)
+				for _, wpath := range ws {
+					n++
+					if n%shards != shard || (n/shards)%wstride != woff {
+						continue
+					}
+					var steps []wStep
+					for _, pe := range append(append([]*tla.Edge{}, g.PathTo(nd)...), wpath...) {
+						steps = append(steps, wStep{pe.Act, pe.Dst.State})
+					}
+					report(steps)
+					res.Add("hold_windows", 1)
+				}
 			}
 		}
 		hit, _ := g.HitCount()
